@@ -178,10 +178,11 @@ class _Abort(BaseException):
 class Ctl:
     """Deterministic scheduler: every controlled thread parks at gates; one label releases one gate."""
 
-    HARD = 20.0
+    HARD = 8.0
 
     def __init__(self, tmos, waits):
         self.tmos, self.waits = tmos, waits
+        self.HARD = float(os.environ.get("C17_SETTLE_S", "8"))
         self.cv = real_threading.Condition()
         self.th = {}
         self.abort = False
@@ -889,12 +890,17 @@ def real_low_level(spec):
         res = f"EXC {type(e).__name__}"
     wall = time.time() - t0
     f = ex.futures[0] if ex.futures else None
-    time.sleep(0.05)
-    survivors = []
-    for p in psutil.process_iter(["cmdline"]):
-        with contextlib.suppress(Exception):
-            if marker in " ".join(p.info["cmdline"] or []):
-                survivors.append(p.pid)
+    # every child has been sent SIGKILL by now; give the kernel a moment to tear them down
+    t1 = time.time()
+    while True:
+        survivors = []
+        for p in psutil.process_iter(["cmdline", "status"]):
+            with contextlib.suppress(Exception):
+                if marker in " ".join(p.info["cmdline"] or []) and p.info["status"] != psutil.STATUS_ZOMBIE:
+                    survivors.append(p.pid)
+        if not survivors or time.time() - t1 > 3.0:
+            break
+        time.sleep(0.1)
     for pid in survivors:
         with contextlib.suppress(Exception):
             psutil.Process(pid).kill()
@@ -1009,8 +1015,8 @@ def families(tier):
     fam = []
     if tier == "quick":
         fam += [([0], [], 3, 15), ([1], [], 3, 15)]
-        fam += [([1], [0], 2, 7), ([1], [1], 2, 7), ([0], [0, 1], 1, 0), ([1], [0, 0], 1, 0)]
-        fam += [([0, 0], [], 1, 0), ([0, 1], [0], 0, 4), ([0, 0], [1], 0, 0)]
+        fam += [([1], [0], 2, 4), ([1], [1], 2, 4), ([0], [0], 1, 15), ([0], [1], 1, 15), ([0], [0, 1], 1, 0), ([1], [0, 0], 1, 0)]
+        fam += [([0, 0], [], 1, 0), ([0, 1], [0], 0, 0), ([0, 0], [1], 0, 0)]
     else:
         fam += [([0], [], 4, 15), ([1], [], 4, 15)]
         fam += [([1], [0], 3, 15), ([1], [1], 3, 15), ([0], [0, 1], 2, 7), ([1], [0, 0], 2, 7), ([1], [1, 1], 2, 4)]
@@ -1027,6 +1033,9 @@ def random_schedules(exe, r, tmos, waits, count, maxpre):
         t, a, b = l
         return 4 * a if t <= SUBWAIT else (4 * a + 1 if t <= SETRES else 4 * a + 2)
 
+    res = model_parallel(exe, [("c17_random", [r.getrandbits(62), maxpre] + cw) for _ in range(count)])
+    if all(x is not None for x in res):
+        return [[list(x[i:i + 3]) for i in range(0, len(x), 3)] for x in res]
     walkers = [{"s": [], "last": None, "pre": 0, "done": False} for _ in range(count)]
     for _ in range(200):
         live = [w for w in walkers if not w["done"]]
@@ -1113,7 +1122,7 @@ def run(rep, tier):
             for s in ss:
                 cases.append({"tmos": tm, "waits": wa, "sched": s, "maximal": True, "family": f"exh:{len(tm)}j{len(wa)}s"})
         # random deeper schedules
-        rnd = [([0, 1], [0], 300, 3), ([0, 0], [1], 200, 3), ([1, 0], [0, 1], 150, 3)] if tier == "quick" else \
+        rnd = [([0, 1], [0], 200, 3), ([0, 0], [1], 150, 3), ([1, 0], [0, 1], 100, 3)] if tier == "quick" else \
               [([0, 1], [0], 3000, 4), ([0, 0], [1], 2000, 4), ([1, 0], [0, 1], 2000, 4), ([0, 1, 0], [0], 3000, 3), ([0, 0, 1], [1], 2000, 3), ([0, 1, 0], [0, 1], 2000, 3)]
         for tm, wa, cnt, P_ in rnd:
             for s in random_schedules(exe, r, tm, wa, cnt, P_):
@@ -1122,6 +1131,8 @@ def run(rep, tier):
         # no model: still run the corpus + hand-written schedules through the spec check
         pass
 
+    phase = {"build_s": round(t_start - rep.t0, 1), "generate_s": round(time.time() - t_start, 1)}
+    t_ph = time.time()
     # ---------------- implementation (forced schedules) and model traces
     with Pool(min(16, os.cpu_count() or 4)) as pool:
         real_async = pool.map_async(real_low_level, [{"script": s, "timeout": t} for s, t, _, _ in REAL_CASES], chunksize=1)
@@ -1137,15 +1148,30 @@ def run(rep, tier):
                 nerr += 1
                 if nerr >= 24:
                     break          # something is badly broken: do not wait for thousands of time-outs
+        # a thread that is not scheduled for seconds on an overloaded machine looks like a hang:
+        # re-run such cases, each in a fresh process with a long limit, before believing them
+        retry = [i for i, x in enumerate(impl) if x["error"] and ("did not settle" in x["error"] or "first gates" in x["error"])]
+        if retry and len(retry) < 24:
+            os.environ["C17_SETTLE_S"] = "40"
+            with Pool(4, maxtasksperchild=1) as pool2:
+                again = pool2.map(impl_run_safe, [cases[i] for i in retry], chunksize=1)
+            os.environ.pop("C17_SETTLE_S", None)
+            for i, x in zip(retry, again):
+                impl[i] = x
+            rep.coverage["retried_after_scheduling_stall"] = len(retry)
         skipped = len(cases) - len(impl)
         if skipped:
             cases = cases[:len(impl)]
             rep.coverage["skipped_after_24_errors"] = skipped
+    phase["impl_s"] = round(time.time() - t_ph, 1)
+    t_ph = time.time()
     model = None
     if exe is not None:
         tr = model_parallel(exe, [("c17_trace", cfg_words(c["tmos"], c["waits"]) + flat(c["sched"])) for c in cases])
         model = [parse_trace(t, len(c["tmos"]), len(c["waits"])) if t is not None else None for t, c in zip(tr, cases)]
 
+    phase["model_trace_s"] = round(time.time() - t_ph, 1)
+    rep.coverage["phase_wall_s"] = phase
     known_hist = {}
     nbad = 0
     for i, c in enumerate(cases):
